@@ -382,13 +382,15 @@ class AtomList(H):
         return z3.BoolVal("list" in tn)
 
 
-def _is_stat_or_none(v, kind):
+def _is_stat_or_none(v, kind, col=None):
     if isinstance(v, NoneV):
         return z3.BoolVal(True)
     if isinstance(v, Opt):
-        return z3.Or(v.isnone, _is_stat_or_none(v.val, kind))
+        return z3.Or(v.isnone, _is_stat_or_none(v.val, kind, col))
     if isinstance(v, Custom) and isinstance(v.h, StatVal):
-        return z3.BoolVal(v.h.kind == kind)
+        if v.h.kind != kind:
+            return z3.BoolVal(False)
+        return v.h.col == col if col is not None else z3.BoolVal(True)
     return z3.BoolVal(False)
 
 
@@ -406,8 +408,8 @@ class AppFilters(H):
         k = next(eng.counter)
         for var, kind in self.inv_vars:
             if var in p.env:
-                eng.oblige(p, f"filter_out.loop_invariant_on_entry[{var} is None or the decoded {kind}]", "inv",
-                           _is_stat_or_none(p.env[var], kind), st)
+                eng.oblige(p, f"filter_out.loop_invariant_on_entry[{var} is None or the decoded {kind} of this column]", "inv",
+                           _is_stat_or_none(p.env[var], kind, self.col), st)
         exit_path, body = p.fork(), p.fork()
         for q in (exit_path, body):
             for var, kind in self.inv_vars:
@@ -422,8 +424,8 @@ class AppFilters(H):
                 if r.ctl in (None, "continue"):
                     for var, kind in self.inv_vars:
                         if var in r.env:
-                            eng.oblige(r, f"filter_out.loop_invariant_preserved[{var} is None or the decoded {kind}]", "inv",
-                                       _is_stat_or_none(r.env[var], kind), st)
+                            eng.oblige(r, f"filter_out.loop_invariant_preserved[{var} is None or the decoded {kind} of this column]", "inv",
+                                       _is_stat_or_none(r.env[var], kind, self.col), st)
                 elif r.ctl == "break":
                     r.ctl = None
                     outs.append(r)
@@ -495,8 +497,23 @@ class Columns(H):
         self.rg = rg
 
     def for_loop(self, eng, p, st):
-        # arbitrary column; no state is carried between iterations (vmax/vmin are re-initialised by the body)
+        # arbitrary column, arbitrary iteration: every variable the loop body assigns is havoc'd at the start of the
+        # iteration (it may carry anything from an earlier column - in particular another column's statistics)
         exit_path, body = p.fork(), p.fork()
+        assigned = set()
+        for n in ast.walk(ast.Module(body=st.body, type_ignores=[])):
+            if isinstance(n, (ast.Assign, ast.AugAssign, ast.For)):
+                tg = n.targets if isinstance(n, ast.Assign) else [n.target]
+                for t in tg:
+                    assigned |= {x.id for x in ast.walk(t) if isinstance(x, ast.Name)}
+        for q in (exit_path, body):
+            for var in assigned:
+                if var in q.env:
+                    if var in ("vmax", "vmin"):
+                        other = z3.Const(f"earlier_col!{next(eng.counter)}", ColS)
+                        q.env[var] = Opt(eng.fresh(var + "_none", z3.BoolSort()), Custom(StatVal("max" if var == "vmax" else "min", other)))
+                    else:
+                        q.env[var] = Opaque((var, "carried", next(eng.counter)))
         col = ColumnChunk(eng, self.rg)
         body.ghost.setdefault("columns", []).append(col)
         outs = [exit_path]
